@@ -246,9 +246,15 @@ def shard(args):
             out['payload_bytes'] += len(expect)
             ok = bd['n'] == len(expect) and int(bd['h'], 16) == (fnv(expect) if expect else 0)
             if not ok:
-                attributed = bool(t.get('tx_trace', 0) & (1 << 9))
+                restarted = bool(t.get('tx_trace', 0) & (1 << 9))
+                # input predicate of KF-C07-restart-loses-prefix: the unchanged parser only ever restarts a decompressor that has
+                # consumed earlier chunks when the body is not what its label says at first try - zlib-wrapped data under
+                # 'deflate' (tried as raw deflate first), a layer list containing such a layer, or data invalid for the coding.
+                # A restart on a valid gzip / raw deflate / LZMA body is not that finding.
+                restart_expected = kind == 'invalid' or 'deflate-zlib' in tag
+                attributed = restarted and restart_expected
                 base = {'fidelity': 'payload_mismatch', 'request': 'req_payload_mismatch', 'layers': 'layers_mismatch', 'invalid': 'passthrough_lost_bytes'}[kind]
-                k = base + ('@restart_loses_prefix' if attributed else '')
+                k = base + ('@restart_loses_prefix' if attributed else ('@unexpected_restart' if restarted else ''))
                 if kind == 'invalid' and not attributed and (t.get('tx_trace', 0) & (1 << 10)):
                     k = base + '@partial_output_on_error'
                 if kind == 'layers' and not attributed and len(set(tag.split(':')[1].split('+'))) > 1:
@@ -257,7 +263,7 @@ def shard(args):
                 errs.append((k, '%s, chunking %s: %d bytes delivered, %d expected%s' % (tag, cname, bd['n'], len(expect),
                                                                                           (' (same length, different content)' if bd['n'] == len(expect) else ''))))
             if follow and (len(txs) < 2 or txs[1] is None or txs[1].get('res_body', {}).get('d') != 'next'):
-                errs.append(('following_message_damaged' + ('@restart_loses_prefix' if t.get('tx_trace', 0) & (1 << 9) else ''), '%s, chunking %s: the response after the coded body was not parsed intact' % (tag, cname)))
+                errs.append(('following_message_damaged' + ('@restart_loses_prefix' if (t.get('tx_trace', 0) & (1 << 9)) and (kind == 'invalid' or 'deflate-zlib' in tag) else ''), '%s, chunking %s: the response after the coded body was not parsed intact' % (tag, cname)))
         for pv in d.get('viol', []):
             out['monitor'].append((pv[0], pv[1], '%s, chunking %s: %s' % (tag, cname, pv[2]), d['id']))
         for k, det in errs:
